@@ -555,6 +555,9 @@ func (t *fnTrans) nilIfaceCheck(v ssa.Value, pos token.Pos) {
 // keeping ghost lock state.
 func (t *fnTrans) havocVars(all bool, vars map[string]bool) {
 	keepGhost := func(hv string) bool {
+		if w := t.g.ann.singleWriterHV[hv]; w != "" && (t.fn.Name() == w || strings.HasPrefix(t.fn.Name(), w+"$")) {
+			return true // nobody but this function writes the field
+		}
 		return hv == "held" || hv == "rheld" || hv == "alloc" || strings.HasPrefix(hv, "ghost:") || strings.HasPrefix(hv, "RV:") || t.g.ann.immutableHV[hv]
 	}
 	reach := t.cur.reach
@@ -959,6 +962,11 @@ func (t *fnTrans) acquireEffects(mu ssa.Value, field string) {
 	base := t.val(fa.X)
 	for _, gf := range t.g.ann.guardedFields(field) {
 		hv := gf.hv
+		if sa := t.g.ann.structs[gf.owner]; sa != nil {
+			if fa := sa.fields[gf.field]; fa != nil && fa.writer != "" && (t.fn.Name() == fa.writer || strings.HasPrefix(t.fn.Name(), fa.writer+"$")) {
+				continue // only this function writes the field: no interference to model
+			}
+		}
 		srt, known := t.h.sorts[hv]
 		if !known {
 			// register lazily from type info
